@@ -35,6 +35,7 @@ def run(rep):
     rep.guard(c05.e4, rep, w)     # a key must not change after it was inserted: tuples, ranges and strings are never written after construction (a copied-and-patched tuple carries its source's state, e.g. a remembered hash)
     rep.guard(c05.e12, rep, w)    # ... and carry no state a reader changes (a remembered hash that a copy of the tuple inherits)
     rep.guard(h12, rep, w)
+    rep.guard(h14, rep, w)
     rep.guard(h13, rep, w)
     rep.guard(h10, rep, w)
 
@@ -453,3 +454,31 @@ def h13(rep, w, prop='C12'):
                     '%s panics for every input: any key whose Hash impl reaches it (an integer hashed with isize::hash, a str) aborts the interpreter' % p_, f.loc())
     if n == 0:
         raise Broken(prop, 'anchor', 'no Hasher implementation found in the crate')
+
+
+def h14(rep, w):
+    """two tuples are equal when they have the same elements: the comparison is the element-wise comparison of the two element vectors, as std
+    defines it for Vec / slices (lengths first, then pairwise ==). A hand-written walk (a work list that compares lengths at the top level
+    only) makes `((1,2),"k") == ((1,2,3),"k")`, while the hash stays structural: equal keys, different buckets."""
+    r = rep.rule('H14', 'tuple equality is decided by the equality of the two element vectors (std\'s Vec / slice ==)', floor=1)
+    import roles
+    f = None
+    for p_, g in w.yarel.fns.items():
+        if p_.endswith('::eq') and 'ObjTuple as std::cmp::PartialEq' in p_ and 'Gc<' not in p_:
+            f = g
+    if f is None:
+        raise Broken('C12', 'anchor', 'PartialEq for ObjTuple not found')
+    org = origins(f)
+    roots = org.get(0, ())
+    ok = False
+    bad = []
+    for q in roots:
+        if q[0][0] == 'call' and 'PartialEq' in q[0][2] and ('Vec' in q[0][2] or '[' in q[0][2] or 'slice' in q[0][2]):
+            ok = True
+        elif q[0][0] == 'const':
+            continue          # the identity shortcut answers `true`
+        else:
+            bad.append(q[0][2].rsplit('::', 1)[-1] if q[0][0] == 'call' else str(q[0]))
+    r.check(ok and not bad, 'ObjTuple::eq is elements == elements',
+            'ObjTuple::eq does not answer with the equality of the two element vectors (its answer comes from %s): tuples of different shape can compare equal, or equal ones unequal'
+            % (sorted(set(bad)) or 'no vector comparison'), f.loc())
